@@ -431,6 +431,7 @@ type VsSpec struct {
 	Body   func()
 	Check  func(x *vs.Exec) *Viol // nil = fine
 	P, D   int                    // bounds to reach (iterated from 0)
+	Delay  bool                   // P bounds all deviations from the default scheduler, not only preemptions
 	Sample func() any             // describes the last execution (for evidence)
 	MaxExecs int
 }
@@ -534,7 +535,7 @@ func runVs(c *RunCtx, sp *VsSpec) *Result {
 	completedP := -1
 	total := &vs.Stats{Exhaustive: true}
 	for p := 0; p <= sp.P; p++ {
-		b := vs.Bounds{P: p, D: sp.D, Deadline: c.Deadline, MaxExecs: sp.MaxExecs}
+		b := vs.Bounds{P: p, D: sp.D, Deadline: c.Deadline, MaxExecs: sp.MaxExecs, Delay: sp.Delay}
 		st, v := vs.Explore(sp.Body, chk, b)
 		if p == sp.P || v != nil || !st.Exhaustive {
 			total = st
@@ -573,7 +574,11 @@ func runVs(c *RunCtx, sp *VsSpec) *Result {
 	res.Transitions = total.Transitions
 	res.addExtra("divergences", total.Divergences)
 	res.addExtra("horizon_hits", total.HorizonHits)
-	res.Bounds["P"] = completedP
+	if sp.Delay {
+		res.Bounds["scheduler_deviations"] = completedP
+	} else {
+		res.Bounds["P"] = completedP
+	}
 	res.Bounds["D"] = sp.D
 	if sp.Sample != nil {
 		vs.Run(nil, sp.Body, vs.Options{})
